@@ -1,5 +1,5 @@
 #!/bin/bash
-# tools/reseed.sh [-j N] [ids...] : re-run every stored seeded change (seeded/<id>-<k>/patch.diff) against the current /repo HEAD, each in a
+# tools/reseed.sh [-j N] [ids or seed names (C27 C01-9 ...)...] : re-run every stored seeded change (seeded/<id>-<k>/patch.diff) against the current /repo HEAD, each in a
 # scratch worktree of its own (VERIF_REPO), N at a time (default 6).  One line per seed in seeded/RESULTS.tsv:
 #   defects (meta caught_by = the checks that caught it when it was made): applies? exit=1 expected
 #   behaviour-preserving refactorings (meta kind = benign): exit=0 expected
@@ -33,7 +33,7 @@ todo=()
 for d in seeded/*/; do
   d=${d%/}; s=$(basename $d); id=${s%-*}
   [ -f $d/meta.json ] || continue
-  if [ "$ids" != "  " ] && [[ ! "$ids" =~ " $id " ]]; then continue; fi
+  if [ "$ids" != "  " ] && [[ ! "$ids" =~ " $id " ]] && [[ ! "$ids" =~ " $s " ]]; then continue; fi
   todo+=($d)
 done
 tmp=$(mktemp)
